@@ -493,6 +493,8 @@ func baseConfig(o nodeOpts) *raft.Config {
 	return c
 }
 
+var nodeCacheCounter int
+
 // newNode builds a stepper node over the given stores (nil => fresh).
 func newNode(o nodeOpts, logs *MapLogStore, stable *MapStable, snaps *SnapStore) (*node, error) {
 	if logs == nil {
@@ -523,6 +525,16 @@ func newNode(o nodeOpts, logs *MapLogStore, stable *MapStable, snaps *SnapStore)
 	var ls raft.LogStore = logs
 	if o.track {
 		ls = TrackLogStore{logs}
+	} else {
+		// every second stepper node reads and writes its log store through a real raft.LogCache of two
+		// slots (C19: transparent to the wrapped store; the model is the same): truncations wider than the
+		// ring, rewrites of an index after a truncation and compaction then go through the cache's paths
+		nodeCacheCounter++
+		if nodeCacheCounter%2 == 1 {
+			if c, err := raft.NewLogCache(2, logs); err == nil {
+				ls = c
+			}
+		}
 	}
 	r, err := raft.VerifNewRaft(n.conf, fsm, ls, stable, snaps, n.trans)
 	if err != nil {
